@@ -7,9 +7,11 @@
                           _next_shape_id, SlideShapes.clone_layout_placeholders,
                           LayoutPlaceholders.get, MasterPlaceholders.get,
                           SlidePlaceholders.__iter__ (sorted by idx), add_textbox
-      shapes/placeholder.py _InheritsDimensions (own value, else base placeholder),
+      shapes/placeholder.py _InheritsDimensions (own value, else base placeholder; the setters
+                          go through _set_dimension, which writes the inherited values of the
+                          dimensions a new a:off / a:ext would displace),
                           _BaseSlidePlaceholder / LayoutPlaceholder / NotesSlidePlaceholder
-                          ._base_placeholder
+                          ._base_placeholder, MasterPlaceholder (plain Shape setters)
       oxml/shapes/autoshape.py CT_Shape.new_placeholder_sp
       oxml/shapes/shared.py CT_Placeholder defaults, BaseShapeElement x/y/cx/cy,
                           (validation before anything is added), CT_Transform2D (a:off and a:ext
@@ -575,6 +577,37 @@ Definition same_pair (a b : attr) : bool :=
   | _, _ => false
   end.
 
+(** the other dimension carried by the same element (a:off holds left and top, a:ext width and height) *)
+Definition partner (a : attr) : attr :=
+  match a with ALeft => ATop | ATop => ALeft | AWidth => AHeight | AHeight => AWidth end.
+
+(** what an _InheritsDimensions proxy reports for [b]: own value, else its inherited value [inh b]
+    (slide_eff, layout_eff and notes_eff are instances) *)
+Definition eff_with (inh : attr -> res (option Z)) (b : attr) (s : shape) : res (option Z) :=
+  match own b s with Some x => Ok (Some x) | None => inh b end.
+
+(** the exact guard under which _set_dimension goes through: the assigned value is in range and,
+    for every other dimension without own value, the inherited lookup does not raise and what it
+    yields (if anything) is in range *)
+Definition dim_guard (inh : attr -> res (option Z)) (a : attr) (v : Z) (s : shape) : Prop :=
+  coord_ok a v = true /\
+  (forall b, b <> a -> own b s = None ->
+    exists w, inh b = Ok w /\ forall x, w = Some x -> coord_ok b x = true).
+
+(** the state an accepted assignment of [v] to one dimension produces at element level *)
+Definition put (a : attr) (v : Z) (s : shape) : shape :=
+  let off0 := match s_off s with Some o => o | None => (0, 0)%Z end in
+  let ext0 := match s_ext s with Some e => e | None => (0, 0)%Z end in
+  let off1 := match a with
+              | ALeft => Some (v, snd off0)
+              | ATop => Some (fst off0, v)
+              | _ => s_off s end in
+  let ext1 := match a with
+              | AWidth => Some (v, snd ext0)
+              | AHeight => Some (fst ext0, v)
+              | _ => s_ext s end in
+  mk_shape (s_id s) (s_name s) (s_ph s) off1 ext1 (s_txbody s).
+
 Definition sh_type (s : shape) : N := match s_ph s with Some p => ph_type p | None => default_type end.
 
 Definition type_pred (t : N) (s : shape) : bool :=
@@ -617,3 +650,26 @@ Definition ex_deck : deck :=
   mk_deck [[mk_shape 2%N [] (Some (mk_ph (Some 2%N) (Some 1%N) None None)) (Some (11, 12)%Z) (Some (13, 14)%Z) true]]
           [ex_layout] [mk_slide 0 [] None] [] None.
 
+
+(** witness decks for the assignment statements: a master title with a position but no size
+    (width and height are inherited as None) ... *)
+Definition half_deck : deck :=
+  mk_deck [[mk_shape 2%N [] (Some (mk_ph (Some 1%N) None None None)) (Some (10, 20)%Z) None true]]
+          [mk_layout 0 [mk_shape 2%N [] (Some (mk_ph (Some 1%N) None None None)) None None true]] [] [] None.
+(** ... and a layout title whose a:ext carries a negative width (schema-invalid, yet loadable) *)
+Definition neg_deck : deck :=
+  mk_deck [[]]
+          [mk_layout 0 [mk_shape 2%N [] (Some (mk_ph (Some 1%N) None None None)) (Some (1, 2)%Z) (Some (-5, 7)%Z) true]]
+          [] [] None.
+
+(** the four reported dimensions of shape [i] of slide [s], with its own a:off and a:ext *)
+Definition reported (c : cfg) (d : deck) (s i : nat)
+  : option (option (Z * Z) * option (Z * Z) * list (res (option Z))) :=
+  match nth_error (d_slides d) s with
+  | Some sl =>
+      match nth_error (sl_shapes sl) i with
+      | Some sh => Some (s_off sh, s_ext sh, map (fun a => slide_geom c d sl a sh) [ALeft; ATop; AWidth; AHeight])
+      | None => None
+      end
+  | None => None
+  end.
